@@ -602,14 +602,14 @@ def repo_state(fake):
     return out
 
 
-def run_http_history(sizes, seed, ops, default_namespace, fault):
+def run_http_history(sizes, seed, ops, default_namespace, fault, content_type=None):
     """the history through a REAL loopback HTTP server in front of the facade (whole client stack incl. urllib3
     retry logic), with lost replies as given by `fault` = {request index: 'drop' | 'truncate'}.
     Returns (steps, requests seen per step, repository states (server, twin))"""
     A = build(sizes, seed)
     B = build(sizes, seed)
     B.default_namespace = default_namespace
-    srv = facade.HttpFacade(A, fault=fault)
+    srv = facade.HttpFacade(A, fault=fault, content_type=content_type)
     try:
         client = srv.client(default_namespace=default_namespace)
         direct_log = []
